@@ -18,6 +18,7 @@ import (
 	"os"
 	"path/filepath"
 	"regexp"
+	"sort"
 	"strings"
 
 	"github.com/DavidGamba/go-getoptions/internal/help"
@@ -368,11 +369,9 @@ func (gopt *GetOpt) Parse(args []string) ([]string, error) {
 		// If the help is called, don't check for required options since the program wont run.
 		if gopt.finalNode.HelpCommandName == "" || !gopt.Called(gopt.finalNode.HelpCommandName) {
 			// Validate required options
-			for _, option := range node.ChildOptions {
-				err := option.CheckRequired()
-				if err != nil {
-					return nil, fmt.Errorf("%w%s", ErrorParsing, err.Error())
-				}
+			err := checkRequired(node)
+			if err != nil {
+				return nil, err
 			}
 		}
 	}
@@ -400,6 +399,23 @@ func (gopt *GetOpt) Parse(args []string) ([]string, error) {
 	return remaining, nil
 }
 
+// checkRequired - Validates the required options of a node in sorted order,
+// that way the same missing option is reported on every run.
+func checkRequired(n *programTree) error {
+	names := make([]string, 0, len(n.ChildOptions))
+	for k := range n.ChildOptions {
+		names = append(names, k)
+	}
+	sort.Strings(names)
+	for _, k := range names {
+		err := n.ChildOptions[k].CheckRequired()
+		if err != nil {
+			return fmt.Errorf("%w%s", ErrorParsing, err.Error())
+		}
+	}
+	return nil
+}
+
 // Dispatch - Handles calling commands and subcommands after the call to Parse.
 func (gopt *GetOpt) Dispatch(ctx context.Context, remaining []string) error {
 	if gopt.finalNode.HelpCommandName != "" && gopt.Called(gopt.finalNode.HelpCommandName) {
@@ -407,11 +423,9 @@ func (gopt *GetOpt) Dispatch(ctx context.Context, remaining []string) error {
 		return ErrorHelpCalled
 	}
 	// Validate required options
-	for _, option := range gopt.finalNode.ChildOptions {
-		err := option.CheckRequired()
-		if err != nil {
-			return fmt.Errorf("%w%s", ErrorParsing, err.Error())
-		}
+	err := checkRequired(gopt.finalNode)
+	if err != nil {
+		return err
 	}
 	if gopt.finalNode.CommandFn != nil {
 		return gopt.finalNode.CommandFn(ctx, &GetOpt{gopt.finalNode, gopt.finalNode}, remaining)
